@@ -45,7 +45,7 @@ func c07GenScenario(t *rapid.T, o gen.C07TreeOpts, maxLabelSets int) c07Scenario
 }
 
 func c07GenRoute(t *rapid.T) c07Scenario {
-	o := gen.C07TreeOpts{}
+	o := gen.C07TreeOpts{GuardedRootOneIn: 12}
 	if pbt.Thorough() {
 		o.MaxNodes = 40
 	}
@@ -240,6 +240,33 @@ func c07Classify(res *pbt.Result, tree *ref.RouteNode, ls map[string]string, wan
 
 func c07ExecRoute(sc c07Scenario) (res pbt.Result) {
 	text, _, root, err := c07Load(sc)
+	if len(sc.Tree.AllMatchers()) > 0 {
+		// a root route with matchers of its own: refused by the loader, or, if
+		// accepted, the root still matches every label set (the statement's
+		// "the root always matches … every alert is always routed to at least
+		// one receiver").
+		if err != nil {
+			res.Class("guarded-root-refused")
+			return res
+		}
+		res.Class("guarded-root-accepted")
+		probes := append([]map[string]string{{}, {"zz_unrelated": "1"}}, sc.LabelSets...)
+		for _, ls := range probes {
+			var got []*dispatch.Route
+			func() {
+				defer func() {
+					if p := recover(); p != nil {
+						res.Add(pbt.V("panic", "Route.Match(%v) panicked: %v", ls, p))
+					}
+				}()
+				got = root.Match(toLabelSet(ls))
+			}()
+			if len(got) == 0 {
+				res.Add(pbt.V("empty-result", "label set %v is routed nowhere (the accepted root route carries matchers)\n%s", ls, text))
+			}
+		}
+		return res
+	}
 	if err != nil {
 		res.Add(pbt.V("load", "a documented-valid configuration was not accepted: %v\n%s", err, text))
 		return res
@@ -334,7 +361,7 @@ func c07Paths(rs []ref.RoutedTo) string {
 	return strings.Join(p, " ")
 }
 
-const c07RouteRule = "routing trees rendered as the YAML a user writes (depth <=4 edges, fan-out <=4, <=24 nodes (40 thorough); per non-root node: `matchers` with = != =~ !~ over a 3-name/3-value universe with regexes from a grammar, legacy `match`/`match_re`, or no matchers; `continue`; receiver, group_by (absent | [] | names | ['...']), group_wait, group_interval, repeat_interval, route labels, mute/active interval lists each independently present or absent) inside a minimal configuration loaded by config.Load in the production (fallback) parser mode; 1-6 label sets per tree, half of them bent towards the matchers on a path. Oracle: an independent interpreter of the generated tree (root always matches; children in order; stop after first matching child without continue; self iff no child matched; options defaulted 30s/5m/4h/no group_by and overridden field by field; labels merged; time-interval lists not inherited) compared with dispatch.NewRoute(...).Match as ordered lists of tree nodes and their options, and for every node of the tree; Route.Key() compared with the path of canonically sorted matcher lists. Non-trivial: the tree has a grandchild (depth >=2 edges) and at least one label set is routed to a non-root node. Distinct by scenario digest."
+const c07RouteRule = "routing trees rendered as the YAML a user writes (depth <=4 edges, fan-out <=4, <=24 nodes (40 thorough); per non-root node: `matchers` with = != =~ !~ over a 3-name/3-value universe with regexes from a grammar, legacy `match`/`match_re`, or no matchers; `continue`; receiver, group_by (absent | [] | names | ['...']), group_wait, group_interval, repeat_interval, route labels, mute/active interval lists each independently present or absent) inside a minimal configuration loaded by config.Load in the production (fallback) parser mode; one tree in 12 carries `matchers`, `match` or `match_re` on the root itself and must be refused by the loader or, if accepted, still route every label set (also {} and an unrelated label) somewhere; 1-6 label sets per tree, half of them bent towards the matchers on a path. Oracle: an independent interpreter of the generated tree (root always matches; children in order; stop after first matching child without continue; self iff no child matched; options defaulted 30s/5m/4h/no group_by and overridden field by field; labels merged; time-interval lists not inherited) compared with dispatch.NewRoute(...).Match as ordered lists of tree nodes and their options, and for every node of the tree; Route.Key() compared with the path of canonically sorted matcher lists. Non-trivial: the tree has a grandchild (depth >=2 edges) and at least one label set is routed to a non-root node. Distinct by scenario digest."
 
 func TestC07Route(t *testing.T) {
 	pbt.Run(t, pbt.Spec[c07Scenario]{
